@@ -630,6 +630,75 @@ let c14_chk t =
                            let key = p_ukey (tok t) in (k, key)) in
   "ok=" ^ sb (fate_ok present changed notes)
 
+
+(* ---------- C15: schema submissions ---------- *)
+let name_code s = let n = ref 0 in String.iter (fun c -> n := !n * 256 + Char.code c) s; z_of_string (string_of_int !n)
+let name_str z = let n = ref (int_of_string (string_of_z z)) in let b = Buffer.create 4 in
+  let rec go () = if !n > 0 then begin let c = !n mod 256 in n := !n / 256; go (); Buffer.add_char b (Char.chr c) end in go (); Buffer.contents b
+let dflt_code = function "-" -> 0 | "0" -> 1 | "1" -> 2 | "s" -> 3 | "n" -> 4 | x -> failwith ("bad default " ^ x)
+let dflt_str z = match int_of_z z with 0 -> "-" | 1 -> "0" | 2 -> "1" | 3 -> "s" | _ -> "n"
+let type_code = function "I" -> 1 | "T" -> 2 | "R" -> 3 | "B" -> 4 | _ -> 5
+let type_str z = match int_of_z z with 1 -> "I" | 2 -> "T" | 3 -> "R" | 4 -> "B" | _ -> "R"
+let p_tab t = match tok t with
+  | "B" -> None
+  | "T" ->
+    let name = name_code (tok t) in
+    let nc = ti t in
+    let raw = tlist t nc (fun t -> let n = tok t in let ty = tok t in let nn = ti t = 1 in let d = tok t in let fk = ti t = 1 in (n, ty, nn, d, fk)) in
+    let npk = ti t in
+    let pk = tlist t npk tok in
+    let pkstyle = ti t in
+    let ni = ti t in
+    let idxs = tlist t ni (fun t -> let n = name_code (tok t) in let u = ti t = 1 in let k = ti t in
+                            { i_name = n; i_unique = u; i_cols = tlist t k (fun t -> name_code (tok t)) }) in
+    let cols = List.map (fun (n, ty, nn, d, fk) ->
+        let ispk = List.mem n pk in
+        { c_name = name_code n; c_type = z_of_small (type_code ty); c_notnull = nn; c_dflt = z_of_small (dflt_code d); c_fk = fk;
+          c_inlinepk = (pkstyle = 1 && npk = 1 && ispk); c_pk = ispk }) raw in
+    Some { t_name = name; t_cols = cols; t_pk = List.map name_code pk; t_idxs = idxs }
+  | x -> failwith ("bad table token " ^ x)
+let fmt_tab (tb : tab) =
+  let cols = List.sort compare (List.map (fun c ->
+      name_str c.c_name ^ ":" ^ type_str c.c_type ^ ":" ^ sb c.c_notnull ^ ":" ^ dflt_str c.c_dflt ^ ":" ^ sb c.c_pk) tb.t_cols) in
+  let idx = List.sort compare (List.map (fun i -> name_str i.i_name ^ ":" ^ sb i.i_unique ^ ":" ^ join "." name_str i.i_cols) tb.t_idxs) in
+  name_str tb.t_name ^ "[" ^ String.concat "," cols ^ "](pk=" ^ join "." name_str tb.t_pk ^ ")(idx=" ^ String.concat ";" idx ^ ")"
+let fmt_val = function None -> "n" | Some z -> let n = int_of_z z in if n = -1000 then "t" else string_of_int n
+let c15_rows st =
+  String.concat "|" (List.sort compare (List.map (fun d ->
+      let names = List.sort compare (List.map (fun c -> name_str c.c_name) d.d_tab.t_cols) in
+      let pkn = List.map name_str d.d_tab.t_pk in
+      let get r n = (try List.assoc (name_code n) r with Not_found -> None) in
+      let key r = List.map (fun n -> match get r n with Some z -> int_of_z z | None -> min_int) pkn in
+      let rs = List.sort (fun a b -> compare (key a) (key b)) d.d_rows in
+      name_str d.d_tab.t_name ^ "=" ^ String.concat ";" (List.map (fun r -> String.concat "," (List.map (fun n -> fmt_val (get r n)) names)) rs)) st.s_db))
+let c15_schema t =
+  let ns = ti t in
+  let st = ref { s_mem = []; s_db = [] } in
+  let outs = ref [] in
+  for _ = 1 to ns do
+    (match tok t with
+     | "S" -> let n = ti t in let sub = tlist t n p_tab in
+       let (ok, st') = exec !st sub in
+       st := st';
+       let mem = String.concat "|" (List.sort compare (List.map fmt_tab st'.s_mem)) in
+       let db = String.concat "|" (List.sort compare (List.map (fun d -> fmt_tab d.d_tab) st'.s_db)) in
+       let rows = c15_rows st' in
+       outs := ("ok=" ^ sb ok ^ " mem=" ^ mem ^ " db=" ^ db ^ " rows=" ^ rows) :: !outs
+     | "W" -> let tb = name_code (tok t) in let k = ti t in
+       let kv = tlist t k (fun t -> let c = name_code (tok t) in let v = tz t in (c, v)) in
+       (match find_dtab tb !st.s_db with
+        | None -> outs := ("w=0 rows=" ^ c15_rows !st) :: !outs
+        | Some d ->
+          if List.for_all (fun (c, _) -> List.exists (fun cc -> cc.c_name = c) d.d_tab.t_cols) kv then begin
+            let r = List.map (fun c -> (c.c_name, (try Some (List.assoc c.c_name kv) with Not_found -> default_val c))) d.d_tab.t_cols in
+            if List.exists (fun c -> c.c_notnull && (List.assoc c.c_name r) = None) d.d_tab.t_cols
+            then outs := ("w=0 rows=" ^ c15_rows !st) :: !outs
+            else begin st := insert_row !st tb r; outs := ("w=1 rows=" ^ c15_rows !st) :: !outs end end
+          else outs := ("w=0 rows=" ^ c15_rows !st) :: !outs)
+     | x -> failwith ("bad op " ^ x))
+  done;
+  String.concat " # " (List.rev !outs)
+
 (* ---------- dispatch ---------- *)
 let handlers : (string * (toks -> string)) list ref = ref [
   "chunks", c08_chunks;
@@ -644,6 +713,7 @@ let handlers : (string * (toks -> string)) list ref = ref [
   "chk_members", c18_chk;
   "crdtm", c01_crdtm;
   "ivm", c11_ivm;
+  "schema", c15_schema;
   "updm", c14_updm;
   "chk_upd", c14_chk;
   "chk_sub", c11_chk;
